@@ -2348,7 +2348,11 @@ class subarray : public const_subarray<T, D, ElementPtr, Layout> {
 		// if(version == 0) {
 		//  std::for_each(this->begin(), this->end(), [&](typename subarray::reference item) {arxiv & AT    ::make_nvp("item", item);});
 		// } else {
+		if constexpr(D == 0) {  // a zero-dimensional view has no elements(): it is its single element
+			const_subarray<T, D, ElementPtr, Layout>::serialize(arxiv, 0U);
+		} else {
 			std::for_each(this->elements().begin(), this->elements().end(), [&](typename subarray::element& elem) {arxiv & AT    ::make_nvp("elem", elem);});
+		}
 		//}
 	//  std::for_each(this->begin(), this->end(), [&](auto&& item) {arxiv & cereal::make_nvp("item", item);});
 	//  std::for_each(this->begin(), this->end(), [&](auto&& item) {arxiv &                          item ;});
